@@ -393,7 +393,8 @@ class Tracker:
     """What the generator / the known-finding predicate need to know about a history prefix, computed from the
     operations alone: is the database in `initialized_dbs`, and can its `models` table be queried."""
 
-    def __init__(self):
+    def __init__(self, recover=True):
+        self.recover = recover     # parse() re-validates a database it can no longer query (fix 821b239)
         self.init = False
         self.dirty = False
         self.file = "noquery"      # "garbage" | "noquery" (database without a usable models table) | "query"
@@ -408,7 +409,7 @@ class Tracker:
         elif k == "setver":
             self.dirty = bool(op[2])
         elif k == "parse":
-            if not op[4] and not self.dirty and not self.unsynced():
+            if not op[4] and not self.dirty and (self.recover or not self.unsynced()):
                 self.init, self.file = True, "query"
         elif k == "cfile":
             self.file = "garbage" if op[1] in ("text", "header") else "noquery"
@@ -416,17 +417,17 @@ class Tracker:
             self.file = "query" if op[2] == "nopk" else "noquery"
 
 
-def unsynced_at(ops, upto):
+def unsynced_at(ops, upto, recover=False):
     """Was the file deleted / overwritten / stripped of a usable `models` table after the process initialised
     it, with no module reload since — at the time operation number `upto` (1-based) ran?"""
-    t = Tracker()
+    t = Tracker(recover)
     for op in ops[:upto - 1]:
         t.feed(op)
     return t.unsynced()
 
 
 # ---- one history -----------------------------------------------------------------------------
-def check_history(ctx, pool, ops, drv, caught, case_extra=None):
+def check_history(ctx, pool, ops, drv, cfg, case_extra=None):
     case = {"texts": pool.texts, "ops": ops}
     if case_extra:
         case.update(case_extra)
@@ -477,7 +478,7 @@ def check_history(ctx, pool, ops, drv, caught, case_extra=None):
     finally:
         real.close()
     if drv is not None:
-        ans = drv.ask({"op": "cache.run", "caught": caught, "pf": pool.pf_table(), "t0": T0,
+        ans = drv.ask({"op": "cache.run", "caught": cfg["caught"], "recover": cfg["recover"], "pf": pool.pf_table(), "t0": T0,
                        "ops": [model_op(o) for o in ops]})
         if not ans.get("ok"):
             raise HarnessError("model driver rejected the history: %s" % ans)
@@ -527,7 +528,7 @@ def gen_history(rng, pool, maxlen, guarded):
     ops = []
     ntext = len(pool.texts)
     hot = [rng.randrange(ntext) for _ in range(3)]   # texts parsed again and again (hits)
-    tr = Tracker()
+    tr = Tracker(recover=False)
     if rng.random() < 0.3:
         ops.append(["setinc", rng.choice([1, 7, 1000])])
     while len(ops) < n:
@@ -564,9 +565,16 @@ def faulty(ops):
         any(o[0] == "tick" and o[1] >= DAY for o in ops)
 
 
-def caught_classes():
-    """Exception classes caught around pickle.loads in parse(), read from the source with `ast`."""
-    return a01.extract()["caught_unpickle"]
+def source_cfg(ctx=None):
+    """What the model takes from the source (Python `ast`): the exception classes caught around pickle.loads in
+    parse(), and whether parse() has the retry handler of fix C01-1."""
+    try:
+        ex = a01.extract()
+        return {"caught": ex["caught_unpickle"], "recover": ex["recover"]}
+    except Exception as e:  # translator does not recognise the source any more
+        if ctx is not None:
+            ctx.tie_broken("translator:parse-shape", repr(e))
+        return {"caught": ["Exception"], "recover": True}
 
 
 def translate(ctx):
@@ -584,14 +592,11 @@ def _run(ctx):
     from harness import corpus
     drv = ctx.driver("drv_c01")
     quick = ctx.tier == "quick"
-    try:
-        caught = caught_classes()
-    except Exception as e:  # translator does not recognise the source any more
-        ctx.tie_broken("translator:caught-classes", repr(e))
-        caught = ["Exception"]
+    cfg = source_cfg(ctx)
+    ctx.extra["source_cfg"] = cfg
     for c in corpus.load("C01"):
         ctx.count("corpus")
-        check_history(ctx, Pool.from_texts(c["texts"]), c["ops"], drv, caught, {"corpus": c.get("_file")})
+        check_history(ctx, Pool.from_texts(c["texts"]), c["ops"], drv, cfg, {"corpus": c.get("_file")})
     extra = []
     if not quick:
         mdir = os.path.join(os.environ.get("VERIF_REPO", "/repo"), "test", "models")
@@ -606,9 +611,11 @@ def _run(ctx):
         if ctx.time_left() < 0:
             ctx.notes.append("histories stopped by the time budget after %d" % i)
             break
-        guarded = ctx.rng.random() < 0.85      # the other stream exercises the open finding C01-F2
+        # guarded stream: a module reload follows every damage done while the process holds the database
+        # initialised; the other stream damages it at any time (finding C01-F2, fixed by 821b239)
+        guarded = ctx.rng.random() < 0.6
         ops = gen_history(ctx.rng, pool, maxlen, guarded)
-        hit = check_history(ctx, pool, ops, drv, caught)
+        hit = check_history(ctx, pool, ops, drv, cfg)
         ctx.case({"ops": ops}, nontrivial=bool(hit) and faulty(ops))
         ctx.count("stream-guarded" if guarded else "stream-unguarded")
         ctx.count("len-%02d" % (10 * (len(ops) // 10)))
@@ -616,15 +623,24 @@ def _run(ctx):
             ctx.count("op-" + o[0] + ("-" + str(o[-1]) if o[0] in ("cfile", "clayout") else ""))
 
 
+def search(ctx):
+    """A tie is broken but no parse violated the property yet: more and longer histories, direct oracle only
+    (fresh pool, both streams, flags and damage kinds as in the run)."""
+    with a01.Quiet():
+        pool = Pool(ctx.rng, 10, 4)
+        n = 0
+        while ctx.time_left() > 0 and not ctx.violations and n < 4000:
+            ops = gen_history(ctx.rng, pool, 60, ctx.rng.random() < 0.9)
+            check_history(ctx, pool, ops, None, None)
+            ctx.count("search-history")
+            n += 1
+
+
 def replay(ctx, payload):
     c = payload["case"]
-    try:
-        caught = caught_classes()
-    except Exception:
-        caught = ["Exception"]
     ops = c["ops"][:c["upto"]] if "upto" in c else c["ops"]
     with a01.Quiet():
-        check_history(ctx, Pool.from_texts(c["texts"]), ops, ctx.driver("drv_c01"), caught)
+        check_history(ctx, Pool.from_texts(c["texts"]), ops, ctx.driver("drv_c01"), source_cfg())
 
 
 MANIFEST = dict(
